@@ -331,6 +331,9 @@ def run(tier: str) -> int:
     from ._conc import run_conc, report
     tree = list(range(10))
     cs = [
+        # a writer suspended inside lazy table initialisation (size_ctl = -1, no table yet) / inside the first resize
+        ConcScenario('suspend/init-vs-iter', hasher='identity', capacity=None, prefill=[], threads=[[('insert', 1)], [('iter',), ('keys',), ('len',), ('get', 1)]], preemptions=1, readers=[1]),
+        ConcScenario('suspend/resize-vs-iter', hasher='identity', capacity=2, prefill=[0, 4], threads=[[('insert', 1)], [('iter',), ('len',)]], preemptions=1, readers=[1]),
         ConcScenario('suspend/resize-vs-get-hit', hasher='identity', capacity=2, prefill=[0, 4], threads=[[('insert', 1)], [('get', 4)]], preemptions=1, readers=[1]),
         ConcScenario('suspend/resize-vs-get-miss', hasher='identity', capacity=2, prefill=[0, 4], threads=[[('insert', 1)], [('get', 12)]], preemptions=1, readers=[1]),
         ConcScenario('suspend/resize-vs-get-miss-other-bin', hasher='identity', capacity=2, prefill=[0, 1, 4], setup_removes=[1], threads=[[('insert', 2)], [('get', 5)]], preemptions=1, readers=[1]),
